@@ -23,6 +23,8 @@ structure Inv (s : M) : Prop where
   once : ∀ n, count s.ended n ≤ 1
   /-- releases never outnumber allocations; an address currently handed out has one allocation to spare -/
   bal : ∀ a, count s.rel a + (if (AMap.lookup s.owner a).isSome then 1 else 0) ≤ count s.allocs a
+  /-- every address the allocator has handed out is the current address of a live session -/
+  owned : ∀ a n, AMap.lookup s.owner a = some n → ∃ x, AMap.lookup s.sessions n = some x ∧ x.ip = some a
 
 theorem count_bump (m : AMap Nat Nat) (k k' : Nat) :
     count (bump m k) k' = if k' = k then count m k + 1 else count m k' := by
@@ -31,7 +33,7 @@ theorem count_bump (m : AMap Nat Nat) (k k' : Nat) :
   by_cases e : k' = k <;> simp [e]
 
 theorem inv_init : Inv init := by
-  refine ⟨?_, ?_, ?_, ?_, ?_, ?_⟩ <;> intros <;> simp_all [init, count]
+  refine ⟨?_, ?_, ?_, ?_, ?_, ?_, ?_⟩ <;> intros <;> simp_all [init, count]
 
 theorem firstFree_spec {owner : AMap Nat Nat} {a : Nat} (h : firstFree owner = some a) :
     AMap.lookup owner a = none := by
@@ -50,7 +52,15 @@ theorem inv_create {s : M} (hI : Inv s) (n mac : Nat) : Inv (create s n mac).1 :
         cases e : AMap.lookup s.sessions n <;> simp [e] at hfresh ⊢
       have he : count s.ended n = 0 := by
         simp only [Bool.or_eq_true, decide_eq_true_eq, not_or] at hfresh; omega
-      refine ⟨?_, ?_, hI.one, ?_, hI.once, hI.bal⟩
+      refine ⟨?_, ?_, hI.one, ?_, hI.once, hI.bal, ?_⟩
+      rotate_right
+      · intro a n' h
+        obtain ⟨x, hx, hip⟩ := hI.owned a n' h
+        refine ⟨x, ?_, hip⟩
+        simp only [lookup_insert]
+        split
+        · rename_i e; subst e; rw [hn] at hx; simp at hx
+        · exact hx
       · intro n' x a h hip
         simp only [lookup_insert] at h
         split at h
@@ -69,16 +79,25 @@ theorem inv_create {s : M} (hI : Inv s) (n mac : Nat) : Inv (create s n mac).1 :
         · rename_i e; subst e; exact he
         · exact hI.live n' x h
 
-theorem inv_assign {s : M} (hI : Inv s) (hc : s.calls = []) (n : Nat) : Inv (assign s n).1 := by
+theorem inv_assign {s : M} (hI : Inv s) (n : Nat) (hno : hasAddr s n = false) : Inv (assign s n).1 := by
   unfold assign
   split
   · exact hI
   · rename_i x hx
+    have hxip : x.ip = none := by
+      unfold hasAddr at hno; rw [hx] at hno
+      cases e : x.ip <;> simp [e] at hno ⊢
+    -- no call can be parked for a session without an address
+    have hnopark : ∀ t b, AMap.lookup s.calls t ≠ some (n, b) := by
+      intro t b h
+      obtain ⟨y, hy, _, hip⟩ := hI.parked t n b h
+      rw [hx] at hy; simp only [Option.some.injEq] at hy; subst hy
+      rw [hxip] at hip; simp at hip
     split
     · exact hI
     · rename_i a hf
       have hfree := firstFree_spec hf
-      refine ⟨?_, ?_, ?_, ?_, hI.once, ?_⟩
+      refine ⟨?_, ?_, hI.one, ?_, hI.once, ?_, ?_⟩
       · intro n' y b h hip
         simp only [lookup_insert] at h ⊢
         split at h
@@ -91,8 +110,10 @@ theorem inv_assign {s : M} (hI : Inv s) (hc : s.calls = []) (n : Nat) : Inv (ass
           split
           · rename_i e2; subst e2; rw [hfree] at this; simp at this
           · exact this
-      · intro tag n' b h; simp only [hc] at h; simp at h
-      · intro t t' n' b b' h; simp only [hc] at h; simp at h
+      · intro tag n' b h
+        obtain ⟨y, hy, ht, hip⟩ := hI.parked tag n' b h
+        have hne : n' ≠ n := by intro e; subst e; exact hnopark tag b h
+        exact ⟨y, by simp [lookup_insert, hne, hy], ht, hip⟩
       · intro n' y h
         simp only [lookup_insert] at h
         split at h
@@ -109,6 +130,19 @@ theorem inv_assign {s : M} (hI : Inv s) (hc : s.calls = []) (n : Nat) : Inv (ass
           simp at this
           omega
         · simp only [e, if_false]; exact this
+      · intro b n' h
+        simp only [lookup_insert] at h ⊢
+        split at h
+        · rename_i e
+          simp only [Option.some.injEq] at h; subst h; subst e
+          exact ⟨{ x with ip := some b, terminating := false }, by simp, rfl⟩
+        · rename_i e
+          obtain ⟨y, hy, hip⟩ := hI.owned b n' h
+          by_cases e2 : n' = n
+          · subst e2
+            rw [hx] at hy; simp only [Option.some.injEq] at hy; subst hy
+            rw [hxip] at hip; simp at hip
+          · exact ⟨y, by simp [e2, hy], hip⟩
 
 /-- the state after `tBegin` (the session is marked Terminating) -/
 theorem inv_tBegin {s s1 : M} {x : Sess} (hI : Inv s) {n : Nat} (h : tBegin s n = .ok (s1, x)) :
@@ -132,7 +166,26 @@ theorem inv_release_finish {s : M} (hI : Inv s) {n : Nat} {x : Sess}
     (hnocall : ∀ t b, AMap.lookup s.calls t ≠ some (n, b)) :
     Inv (tFinish (match x.ip with | some a => release s a | none => s) n x) := by
   have hended := hI.live n x hx
-  refine ⟨?_, ?_, ?_, ?_, ?_, ?_⟩
+  refine ⟨?_, ?_, ?_, ?_, ?_, ?_, ?_⟩
+  rotate_right
+  · -- owned
+    intro b n' h
+    have hb : AMap.lookup s.owner b = some n' ∧ (x.ip ≠ some b) := by
+      cases hxi : x.ip with
+      | none => exact ⟨by simpa [tFinish, hxi] using h, by simp⟩
+      | some a =>
+        have : AMap.lookup (AMap.erase s.owner a) b = some n' := by simpa [tFinish, hxi, release] using h
+        rw [lookup_erase] at this
+        split at this
+        · simp at this
+        · rename_i e; exact ⟨this, by simpa using fun e2 => e e2.symm⟩
+    obtain ⟨y, hy, hip⟩ := hI.owned b n' hb.1
+    have hne : n' ≠ n := by
+      intro e; subst e
+      rw [hx] at hy; simp only [Option.some.injEq] at hy; subst hy
+      exact hb.2 hip
+    refine ⟨y, ?_, hip⟩
+    cases hxi : x.ip <;> simp [tFinish, hxi, release, lookup_erase, hne, hy]
   · intro n' y b h hip
     cases hxi : x.ip with
     | none =>
@@ -206,7 +259,16 @@ theorem tFinish_congr (s : M) (n : Nat) (x y : Sess) (h1 : x.mac = y.mac) (h2 : 
 
 theorem inv_mark {s : M} (hI : Inv s) {n : Nat} {x : Sess} (hx : AMap.lookup s.sessions n = some x) :
     Inv { s with sessions := AMap.insert s.sessions n { x with terminating := true } } := by
-  refine ⟨?_, ?_, hI.one, ?_, hI.once, hI.bal⟩
+  refine ⟨?_, ?_, hI.one, ?_, hI.once, hI.bal, ?_⟩
+  rotate_right
+  · intro a n' h
+    obtain ⟨y, hy, hip⟩ := hI.owned a n' h
+    simp only [lookup_insert]
+    split
+    · rename_i e; subst e
+      rw [hx] at hy; simp only [Option.some.injEq] at hy; subst hy
+      exact ⟨_, rfl, hip⟩
+    · exact ⟨y, hy, hip⟩
   · intro n' y a h hip
     simp only [lookup_insert] at h
     split at h
@@ -228,19 +290,15 @@ theorem inv_mark {s : M} (hI : Inv s) {n : Nat} {x : Sess} (hx : AMap.lookup s.s
     · rename_i e; subst e; exact hI.live _ x hx
     · exact hI.live n' y h
 
-theorem inv_step {s : M} (hI : Inv s) (op : Op) : Inv (step s op).1 := by
+/-- the side condition of `Valid` for one operation -/
+def okOp (s : M) : Op → Prop
+  | .assign n => hasAddr s n = false
+  | _ => True
+
+theorem inv_step {s : M} (hI : Inv s) (op : Op) (hok : okOp s op) : Inv (step s op).1 := by
   cases op with
   | create n mac => exact inv_create hI n mac
-  | assign n =>
-    simp only [step]
-    split
-    · exact hI
-    · rename_i hc
-      have : s.calls = [] := by
-        cases h : s.calls with
-        | nil => rfl
-        | cons p r => simp [h] at hc
-      exact inv_assign hI this n
+  | assign n => exact inv_assign hI n hok
   | term n =>
     simp only [step]
     split
@@ -292,7 +350,7 @@ theorem inv_step {s : M} (hI : Inv s) (op : Op) : Inv (step s op).1 := by
         | some a =>
           simp only
           simp only [hxi] at hI1
-          refine ⟨hI1.own, ?_, ?_, hI1.live, hI1.once, hI1.bal⟩
+          refine ⟨hI1.own, ?_, ?_, hI1.live, hI1.once, hI1.bal, hI1.owned⟩
           · intro t n' b h
             simp only [lookup_insert] at h
             split at h
@@ -320,7 +378,7 @@ theorem inv_step {s : M} (hI : Inv s) (op : Op) : Inv (step s op).1 := by
       obtain ⟨x, hx, ht, hip⟩ := hI.parked tag n a hc
       -- the call is removed from the parked set first
       have hI0 : Inv { s with calls := AMap.erase s.calls tag } := by
-        refine ⟨hI.own, ?_, ?_, hI.live, hI.once, hI.bal⟩
+        refine ⟨hI.own, ?_, ?_, hI.live, hI.once, hI.bal, hI.owned⟩
         · intro t n' b h
           simp only [lookup_erase] at h
           split at h
@@ -348,57 +406,113 @@ theorem inv_step {s : M} (hI : Inv s) (op : Op) : Inv (step s op).1 := by
       simp only [hl]
       exact this
 
-theorem inv_run {s : M} (hI : Inv s) (ops : List Op) : Inv (run s ops) := by
+theorem inv_run {s : M} (hI : Inv s) (ops : List Op) (hv : Valid s ops) : Inv (run s ops) := by
   induction ops generalizing s with
   | nil => exact hI
   | cons op ops ih =>
     simp only [run, List.foldl_cons]
-    exact ih (inv_step hI op)
+    obtain ⟨h1, h2⟩ := hv
+    have hok : okOp s op := by
+      cases op <;> first | exact h1 | trivial
+    exact ih (inv_step hI op hok) h2
 
-/-! ## property theorems -/
+/-! ## property theorems
+
+All of them are `_partial` in one respect: they quantify over the histories `Valid init ops`, in which
+AssignAddress is only called on a session that holds no address yet.  The complement is exactly the two
+recorded findings (witness theorems at the end). -/
 
 /-- **A session ends exactly once**, whatever interleaving of terminations is applied. -/
-theorem ended_at_most_once (ops : List Op) (n : Nat) : count (run init ops).ended n ≤ 1 :=
-  (inv_run inv_init ops).once n
+theorem ended_at_most_once_partial (ops : List Op) (hv : Valid init ops) (n : Nat) :
+    count (run init ops).ended n ≤ 1 :=
+  (inv_run inv_init ops hv).once n
 
 /-- **Releases never outnumber allocations**: no address is released twice for one allocation. -/
-theorem released_at_most_allocated (ops : List Op) (a : Nat) :
+theorem released_at_most_allocated_partial (ops : List Op) (hv : Valid init ops) (a : Nat) :
     count (run init ops).rel a ≤ count (run init ops).allocs a := by
-  have := (inv_run inv_init ops).bal a
+  have := (inv_run inv_init ops hv).bal a
   omega
 
 /-- **A termination only ever releases the terminating session's own address**: whenever a
     TerminateSession call is parked at the allocator, the address it is about to release is recorded
     as handed to that very session (so it cannot free an address that now belongs to someone else). -/
-theorem release_only_own_address (ops : List Op) (tag n a : Nat)
+theorem release_only_own_address_partial (ops : List Op) (hv : Valid init ops) (tag n a : Nat)
     (h : AMap.lookup (run init ops).calls tag = some (n, a)) :
     AMap.lookup (run init ops).owner a = some n := by
-  have hI := inv_run inv_init ops
+  have hI := inv_run inv_init ops hv
   obtain ⟨x, hx, _, hip⟩ := hI.parked tag n a h
   exact hI.own n x a hx hip
 
 /-- **No address is shared**: two live sessions never have the same address. -/
-theorem sessions_have_distinct_addresses (ops : List Op) (n n' : Nat) (x x' : Sess) (a : Nat)
+theorem sessions_have_distinct_addresses_partial (ops : List Op) (hv : Valid init ops)
+    (n n' : Nat) (x x' : Sess) (a : Nat)
     (h : AMap.lookup (run init ops).sessions n = some x) (h' : AMap.lookup (run init ops).sessions n' = some x')
     (hi : x.ip = some a) (hi' : x'.ip = some a) : n = n' := by
-  have hI := inv_run inv_init ops
+  have hI := inv_run inv_init ops hv
   have a1 := hI.own n x a h hi
   have a2 := hI.own n' x' a h' hi'
   rw [a1] at a2; simpa using a2
 
+/-- **Everything a terminated session held is released**: once a session has ended, the allocator
+    records no address as handed to it, it is not in the session table, and no call is parked for it. -/
+theorem ended_holds_nothing_partial (ops : List Op) (hv : Valid init ops) (n : Nat)
+    (he : count (run init ops).ended n = 1) :
+    AMap.lookup (run init ops).sessions n = none ∧
+    (∀ a, AMap.lookup (run init ops).owner a ≠ some n) ∧
+    (∀ tag a, AMap.lookup (run init ops).calls tag ≠ some (n, a)) := by
+  have hI := inv_run inv_init ops hv
+  have hgone : AMap.lookup (run init ops).sessions n = none := by
+    cases e : AMap.lookup (run init ops).sessions n with
+    | none => rfl
+    | some x => have := hI.live n x e; omega
+  refine ⟨hgone, ?_, ?_⟩
+  · intro a h
+    obtain ⟨x, hx, _⟩ := hI.owned a n h
+    rw [hgone] at hx; simp at hx
+  · intro tag a h
+    obtain ⟨x, hx, _, _⟩ := hI.parked tag n a h
+    rw [hgone] at hx; simp at hx
+
 /-- **A second, concurrent TerminateSession is refused**: while a call for the session is parked, another
     `tbegin` for it changes nothing. -/
-theorem concurrent_terminate_refused (ops : List Op) (tag tag' n a : Nat)
+theorem concurrent_terminate_refused_partial (ops : List Op) (hv : Valid init ops) (tag tag' n a : Nat)
     (h : AMap.lookup (run init ops).calls tag = some (n, a)) :
     (step (run init ops) (.tbegin tag' n)).1 = run init ops := by
-  have hI := inv_run inv_init ops
+  have hI := inv_run inv_init ops hv
   obtain ⟨x, hx, ht, _⟩ := hI.parked tag n a h
   simp only [step]
   split
   · rfl
   · simp [tBegin, hx, ht]
 
+/-! ### the two recorded findings, proved on the model -/
+
+/-- KF-submgr-reassign-leak: a second AssignAddress gives the session a second address; when the session
+    ends only the latest one is released — the first stays recorded as handed to a session that no longer exists. -/
+theorem KF_submgr_reassign_leak_witness :
+    let s := run init [.create 1 1, .assign 1, .assign 1, .term 1]
+    AMap.lookup s.sessions 1 = none ∧ count s.ended 1 = 1 ∧ AMap.lookup s.owner 2 = some 1 ∧
+    ¬ Valid init [.create 1 1, .assign 1, .assign 1, .term 1] := by
+  refine ⟨by decide, by decide, by decide, ?_⟩
+  intro h
+  have := h.2.2.1
+  revert this; decide
+
+/-- KF-submgr-assign-race: an AssignAddress while the session's termination is parked at the allocator
+    clears the Terminating mark (a second TerminateSession is then accepted) and strands the new address. -/
+theorem KF_submgr_assign_race_witness :
+    let ops := [Op.create 1 1, .assign 1, .tbegin 0 1, .assign 1, .tresume 0]
+    AMap.lookup (run init ops).sessions 1 = none ∧ AMap.lookup (run init ops).owner 3 = some 1 ∧
+    (step (run init [.create 1 1, .assign 1, .tbegin 0 1, .assign 1]) (.tbegin 1 1)).2 = .parked ∧
+    ¬ Valid init ops := by
+  refine ⟨by decide, by decide, by decide, ?_⟩
+  intro h
+  have := h.2.2.2.1
+  revert this; decide
+
 /-! non-vacuity: a concrete interleaving — A parks, B is refused, A finishes, the address is reused -/
+example : Valid init [.create 1 1, .assign 1, .tbegin 0 1, .tbegin 1 1, .tresume 0, .create 2 2, .assign 2] := by
+  refine ⟨trivial, ?_, trivial, trivial, trivial, trivial, ?_, trivial⟩ <;> decide
 example : (step (run init [.create 1 1, .assign 1, .tbegin 0 1]) (.tbegin 1 1)).2 = .busy := by decide
 example : count (run init [.create 1 1, .assign 1, .tbegin 0 1, .tbegin 1 1, .tresume 0, .create 2 2, .assign 2]).rel 2 = 1 ∧
     AMap.lookup (run init [.create 1 1, .assign 1, .tbegin 0 1, .tbegin 1 1, .tresume 0, .create 2 2, .assign 2]).owner 2 = some 2 := by
